@@ -319,6 +319,7 @@ func genYArg(r *Rng, tier string, n int, emit func(Case)) {
 		}
 		v = strings.Join(pvs, "")
 		var pieces []any
+		var dqTexts []string
 		lastQuoted := false
 		for k := 0; k < np; k++ {
 			pv := pvs[k]
@@ -347,7 +348,12 @@ func genYArg(r *Rng, tier string, n int, emit func(Case)) {
 			lp := s[strings.LastIndex(s, "\n")+1:]
 			var txt string
 			var desc map[string]any
-			if r.Chance(12) {
+			if k > 0 && len(dqTexts) > 0 && r.Chance(30) {
+				// the source text of an earlier double-quoted piece once more, character for character, wherever this
+				// piece happens to start: its value is what that text means at *this* column
+				txt = dqTexts[r.Intn(len(dqTexts))]
+				desc = map[string]any{"q": "d", "col": leadWidthGo(lp) + 1, "raw": hex.EncodeToString([]byte(txt[1 : len(txt)-1]))}
+			} else if r.Chance(12) {
 				// the source text of a double-quoted piece written directly: every backslash pair, defined or not
 				// (RFC 6020 substitutes four of them; the others stay as they are)
 				var raw strings.Builder
@@ -366,6 +372,9 @@ func genYArg(r *Rng, tier string, n int, emit func(Case)) {
 				txt, desc = spellPiece(r, pv, lp, mode)
 			}
 			src.WriteString(txt)
+			if strings.HasPrefix(txt, "\"") {
+				dqTexts = append(dqTexts, txt)
+			}
 			lastQuoted = strings.HasPrefix(txt, "'") || strings.HasPrefix(txt, "\"")
 			pieces = append(pieces, desc)
 			if k != np-1 {
